@@ -689,3 +689,24 @@ MANIFEST = {
     "note": "Replay is at quiescent grain (commands only when all goroutines are parked); finer interleavings are model-checked only. "
             "Peers replay uses the repository's fake peers; Mutex fairness assumed for EndReturns; bounds Max<=3 in replay, Max<=2 in MC.",
 }
+
+
+# --- extension part built separately: the event dispatcher (spec/EventBus), see notes/EventBus.md ----------------
+_run_core = run
+
+
+def run(chk, args):
+    import json as _json
+    only = set(args.only.split(",")) if args.only else None
+    if args.replay:
+        with open(args.replay) as fh:
+            rp = _json.load(fh)["replay"]
+        if isinstance(rp, dict) and str(rp.get("kind", "")).startswith("eventbus"):
+            from checks import c15_eventbus
+            return c15_eventbus.replay_part(chk, rp)
+        return _run_core(chk, args)
+    if only is None or only - {"eventbus"}:
+        _run_core(chk, args)
+    if only is None or "eventbus" in only:
+        from checks import c15_eventbus
+        c15_eventbus.run_eventbus_part(chk, args)
